@@ -84,7 +84,7 @@ def assoc_events(ctx):
     unassigned tag) followed by signatures: which signatures does PGPy hold on which component, in memory and after export."""
     pgpy = import_pgpy()
     ev = []
-    for variant in ('plain', 'v5-subkey-between', 'unknown-tag-after-uid', 'v5-subkey-last', 'v5-subkey-first', 'trust-and-v5', 'two-unknown', 'five-octet-subpacket-lengths', 'latin1-uid', 'local-signatures', 'certification-by-unsupported-algorithm'):
+    for variant in ('plain', 'v5-subkey-between', 'unknown-tag-after-uid', 'v5-subkey-last', 'v5-subkey-first', 'trust-and-v5', 'two-unknown', 'five-octet-subpacket-lengths', 'latin1-uid', 'local-signatures', 'certification-by-unsupported-algorithm', 'subkey-without-binding'):
         for secret in (False, True):
             fk = build.ForeignKey('ed25519')
             s1 = enc.Recipient('cv25519', created=fk.created + 1)
@@ -137,6 +137,9 @@ def assoc_events(ctx):
                 ob = bytes([4, 0x10, 20, 8]) + struct.pack('>H', len(hs)) + hs + struct.pack('>H', 10) + build.subpacket(16, bytes(range(8))) + b'\xab\xcd' + \
                     build.mpi(2 ** 255 + 12345) + build.mpi(2 ** 254 + 999)
                 ins[uididx[1]] = build.pkt(2, ob)
+            if variant == 'subkey-without-binding':
+                # what a key server or a minimiser may hand out: the last subkey packet without any signature after it
+                raws = raws[:-1]
             blob = b''.join(ins.get(j, b'') + r for j, r in enumerate(raws)) + ins.get(len(raws), b'')
             e = {'k': 'assoc', 'label': '%s %s' % (variant, 'secret' if secret else 'public'), 'blob': octets(blob), 'got': [], 'reexport': [], 'copy_export': [], 'pub_export': []}
             with warnings.catch_warnings():
